@@ -49,13 +49,21 @@ Definition sign_out (sk : outcome privkey) (sign : privkey -> outcome signature)
   render (do k <- sk; do sg <- sign k; do v <- vres (verify k sg);
           Ok (sig_fields sg +++ ";" +++ v +++ ";" +++ lows sg)).
 
-Definition spec_sig (valid_key : bool) (o : option (Z * Z)) : string :=
+(* the reference (r, s); the compact header must carry the SIGNER's compression marker (27/28 uncompressed,
+   31/32 compressed: the recovery bit is left to the recovery ops of C06); verifies; low-S.
+   Keys outside [1, n-1] cannot sign: ERR. *)
+Definition spec_sig (valid_key : bool) (c : bool) (o : option (Z * Z)) : string :=
   if valid_key then
     match o with
-    | Some (r, s) => "OK:" +++ hex32 r +++ ";" +++ hex32 s +++ ";*;1;1"
+    | Some (r, s) =>
+        let rs := "OK:" +++ hex32 r +++ ";" +++ hex32 s +++ ";" in
+        rs +++ (if c then "31" else "27") +++ ";1;1~" +++ rs +++ (if c then "32" else "28") +++ ";1;1"
     | None => "ERR"
     end
-  else "-".
+  else "ERR".
+
+(* raw verification / recovery of arbitrary inputs: any verdict, but never a panic *)
+Definition verdict_spec : string := "OK:1~OK:0~OK:E~ERR".
 
 Definition valid_key (kb : bytes) : bool := Nat.eqb (length kb) 32 && in_scalar (be_Z kb).
 
@@ -63,26 +71,44 @@ Definition run_sign_det (kb : bytes) (c : bool) (msg : bytes) (h : signing_hash)
   out3 (sign_out (key_of kb c)
           (fun k => sign_with_deterministic_k FP k msg h rk)
           (fun k sg => verify_digest FP msg (to_public_key FP k) sg h))
-       (spec_sig (valid_key kb) (spec_sign_det prim_sign_fast (be_Z kb) (is_double h) msg rk)) "-".
+       (spec_sig (valid_key kb) c (spec_sign_det prim_sign_fast (be_Z kb) (is_double h) msg rk)) "-".
 
 Definition run_sign_message (kb : bytes) (c : bool) (msg : bytes) : string :=
   out3 (sign_out (key_of kb c)
           (fun k => sign_message FP k msg)
           (fun k sg => Ok (verify_message FP sg msg (to_public_key FP k))))
-       (spec_sig (valid_key kb) (spec_sign_det prim_sign_fast (be_Z kb) false msg false)) "-".
+       (spec_sig (valid_key kb) c (spec_sign_det prim_sign_fast (be_Z kb) false msg false)) "-".
 
-Definition run_sign_k (kb : bytes) (c : bool) (nonce msg : bytes) (h : signing_hash) : string :=
-  out3 (render (do k <- key_of kb c; do e <- privkey_from_bytes nonce;
+(* kc: compression marker of the NONCE key; it must not influence anything (the marker of the result is the signer's) *)
+Definition run_sign_k (kb : bytes) (c : bool) (nonce msg : bytes) (h : signing_hash) (kc : bool) : string :=
+  out3 (render (do k <- key_of kb c; do e <- key_of nonce kc;
                 do sg <- sign_with_k FP k e msg h;
                 do v <- vres (verify_digest FP msg (to_public_key FP k) sg h);
                 Ok (sig_fields sg +++ ";" +++ v +++ ";" +++ lows sg)))
-       (spec_sig (valid_key kb && valid_key nonce) (spec_sign_k prim_sign_fast (be_Z kb) (be_Z nonce) (is_double h) msg)) "-".
+       (spec_sig (valid_key kb && valid_key nonce) c (spec_sign_k prim_sign_fast (be_Z kb) (be_Z nonce) (is_double h) msg)) "-".
+
+(* sign_with_k, then ECDSA::private_key_from_signature_k with the signer's public key in compression form pc *)
+Definition run_privkey_from_k (kb : bytes) (c : bool) (nonce : bytes) (kc : bool) (msg : bytes) (h : signing_hash)
+           (pc : bool) : string :=
+  out3 (render (do k <- key_of kb c; do e <- key_of nonce kc;
+                do sg <- sign_with_k FP k e msg h;
+                match private_key_from_signature_k FP sinv_fast sg (to_public_key FP (compress_public_key k pc)) e msg h with
+                | Ok p => Ok (hex32 (sk_d p))
+                | Err => Ok "E"
+                | Panic => Panic
+                end))
+       (if valid_key kb && valid_key nonce then "OK:" +++ hex32 (be_Z kb) +++ "~OK:E" else "ERR") "-".
+
+(* a signature object without recovery info (Signature::from_der) through the verifier *)
+Definition run_verify_der (m pkb der : bytes) (h : signing_hash) : string :=
+  out3 (render (do pk <- pubkey_from_bytes FP pkb; do sg <- from_der_impl der; vres (verify_digest FP m pk sg h)))
+       verdict_spec "-".
 
 Definition run_sign_digest (kb : bytes) (c : bool) (digest : bytes) : string :=
   out3 (sign_out (key_of kb c)
           (fun k => sign_digest_with_deterministic_k FP k digest)
           (fun k sg => verify_hashbuf FP digest (to_public_key FP k) sg))
-       (if Nat.eqb (length digest) 32 then spec_sig (valid_key kb) (spec_sign_digest prim_sign_fast (be_Z kb) digest)
+       (if Nat.eqb (length digest) 32 then spec_sig (valid_key kb) c (spec_sign_digest prim_sign_fast (be_Z kb) digest)
         else "ERR") "-".
 
 Definition run_sign_random (kb : bytes) (c : bool) (msg : bytes) (h : signing_hash) (rk : bool) (entropy : bytes) : string :=
@@ -96,7 +122,7 @@ Definition run_sign_random (kb : bytes) (c : bool) (msg : bytes) (h : signing_ha
                           | Panic => Panic
                           end;
                 Ok (v +++ ";" +++ lows sg +++ ";" +++ bit (sig_in_range secp_n (sig_r sg) (sig_s sg)) +++ ";" +++ rec)))
-       (if valid_key kb then "OK:1;1;1;1" else "-") "-".
+       (if valid_key kb then "OK:1;1;1;1" else "ERR") "-".
 
 Definition run_sign_verify (kb : bytes) (c : bool) (msg : bytes) (h : signing_hash) (rk : bool)
            (kb2 : bytes) (c2 : bool) (msg2 : bytes) (h2 : signing_hash) : string :=
@@ -105,7 +131,7 @@ Definition run_sign_verify (kb : bytes) (c : bool) (msg : bytes) (h : signing_ha
                 vres (verify_digest FP msg2 (to_public_key FP k2) sg h2)))
        (if valid_key kb && valid_key kb2 then
           if bytes_eqb kb kb2 && bytes_eqb msg msg2 && Bool.eqb (is_double h) (is_double h2) then "OK:1" else "OK:E~OK:0"
-        else "-") "-".
+        else "ERR") "-".
 
 Definition run_verify (which : string) (m pkb r s : bytes) (h : signing_hash) : string :=
   out3 (render (do pk <- pubkey_from_bytes FP pkb; do sg <- sig_of r s;
@@ -113,11 +139,18 @@ Definition run_verify (which : string) (m pkb r s : bytes) (h : signing_hash) : 
                 | "digest" => vres (verify_digest FP m pk sg h)
                 | "message" => vres (match verify_digest FP m pk sg SHSha256 with Ok b => Ok b | Err => Err | Panic => Panic end)
                 | _ => vres (verify_hashbuf FP m pk sg)
-                end)) "-" "-".
+                end)) verdict_spec "-".
 
+(* specification: the 32-byte big-endian x coordinate of d * Q for a valid key and a valid point encoding, else an error *)
 Definition run_ecdh (kb pkb : bytes) : string :=
   out3 (render (do k <- privkey_from_bytes kb; do pk <- pubkey_from_bytes FP pkb;
-                do sh <- derive_shared_key FP k pk; Ok (show_bytes sh))) "-" "-".
+                do sh <- derive_shared_key FP k pk; Ok (show_bytes sh)))
+       (if valid_key kb then
+          match sec1_decode_fast pkb with
+          | Some Q => "OK:" +++ hex32 (xcoord (smul_fast (be_Z kb) Q))
+          | None => "ERR"
+          end
+        else "ERR") "-".
 
 Definition run_ecdh_pair (kb1 : bytes) (c1 : bool) (kb2 : bytes) (c2 : bool) : string :=
   out3 (render (do k1 <- key_of kb1 c1; do k2 <- key_of kb2 c2;
@@ -127,7 +160,7 @@ Definition run_ecdh_pair (kb1 : bytes) (c1 : bool) (kb2 : bytes) (c2 : bool) : s
        (if valid_key kb1 && valid_key kb2 then
           let x := hex32 (xcoord (pubkey_fast ((be_Z kb1 * be_Z kb2) mod secp_n))) in
           "OK:" +++ x +++ ";" +++ x
-        else "-") "-".
+        else "ERR") "-".
 
 Definition run (op : string) (args : list string) : string :=
   match op, args with
